@@ -67,4 +67,10 @@ structure Self (Wt P : Type) where
   /-- `hasattr(self, "W")`: the constructor does not create `W`, the first training call does -/
   hasW : Bool := true
 
+/-- the attributes of a `SimpleARTMAP` that its translated methods read or write: the nested A-side estimator and
+the dict `map` (A-category -> class; `none` = key absent) -/
+structure SMapSelf (Wt P : Type) where
+  a : Self Wt P
+  map : List (Option Nat)
+
 end Art.Imp
